@@ -54,49 +54,32 @@ def load_known(prop: str):
 
 
 def run_property(prop: str, tier: str, repo: str, seed: int, args) -> int:
-    from .engine import Engine
-    from .discharge import discharge
+    from .engine import Engine, verify_parallel
     from .contracts import verify_function
     from . import replay as replay_mod
 
     t0 = time.time()
     eng = Engine(repo)
-    keys = [k for k, ct in eng.reg.contracts.items() if prop in ct.props]
+    keys = [k for k, ct in eng.reg.contracts.items() if prop in ct.props and not k.startswith(("virtual:", "ctor:"))]
     if args.only:
         keys = [k for k in keys if args.only in k]
-    plan = eng.reg.property_plans.get(prop) if hasattr(eng.reg, "property_plans") else None
-    reports = []
-    undecided: list[str] = []
-    for k in keys:
-        ct = eng.reg.contracts[k]
-        if k.startswith("virtual:") or k.startswith("ctor:"):
-            continue
-        rep = verify_function(eng.src, eng.reg, eng.schema_factory, eng.models, ct)
-        reports.append(rep)
-    obs = [o for r in reports for o in r.obligations]
     timeout_ms = 10000 if tier == "quick" else 20000
-    verdicts = discharge(obs, tier=tier, timeout_ms=timeout_ms)
-    # one retry for unknowns with a doubled budget (single worker)
-    unk = [i for i, v in enumerate(verdicts) if v.verdict == "unknown"]
-    if unk:
-        again = discharge([obs[i] for i in unk], tier="thorough", timeout_ms=timeout_ms * 3, workers=4)
-        for i, v in zip(unk, again):
-            if v.verdict != "unknown":
-                verdicts[i] = v
+    results, skipped = verify_parallel(eng, keys, tier, timeout_ms)
+    undecided: list[str] = []
+    for k, why in skipped.items():
+        if why == "missing":
+            undecided.append(f"contract names {k}, which does not exist in the current source")
     by_oid: dict[str, list] = defaultdict(list)
-    for o, v in zip(obs, verdicts):
-        by_oid[o.oid].append((o, v))
+    for r in results:
+        for o in r["obligations"]:
+            pr = o["meta"].get("props")
+            if pr and prop not in pr:
+                continue        # clause belongs to other properties of the same function
+            by_oid[o["oid"]].append((r, o))
     status: dict[str, str] = {}
     for oid, lst in by_oid.items():
-        vs = [v.verdict for _, v in lst]
-        if "disagree" in vs:
-            status[oid] = "disagree"
-        elif "refuted" in vs:
-            status[oid] = "refuted"
-        elif "unknown" in vs:
-            status[oid] = "unknown"
-        else:
-            status[oid] = "proved"
+        vs = [o["verdict"] for _, o in lst]
+        status[oid] = ("disagree" if "disagree" in vs else "refuted" if "refuted" in vs else "unknown" if "unknown" in vs else "proved")
     known = load_known(prop)
     violations: list[dict] = []
     known_hits: list[dict] = []
@@ -106,6 +89,24 @@ def run_property(prop: str, tier: str, repo: str, seed: int, args) -> int:
     for old in os.listdir(rdir):
         if old.endswith(".json"):
             os.unlink(os.path.join(rdir, old))
+    rerun_cache: dict = {}
+
+    def instances_of(oid):
+        """Rebuild the refuted obligation's terms in this process (needed for the counter-model)."""
+        out = []
+        for r, o in by_oid[oid]:
+            if o["verdict"] != "refuted":
+                continue
+            ck = (r["key"], r["case"])
+            if ck not in rerun_cache:
+                rep = verify_function(eng.src, eng.reg, eng.schema_factory, eng.models, eng.reg.contracts[r["key"]],
+                                      only_cases={r["case"]})
+                rerun_cache[ck] = rep.obligations
+            for ob in rerun_cache[ck]:
+                if ob.oid == oid and ob.path_sig == o["path_sig"]:
+                    out.append((ob, replay_mod.PlainVerdict(o)))
+                    break
+        return out
     for oid, st in sorted(status.items()):
         if st == "disagree":
             print(f"ENGINE-ERROR solvers disagree on {oid}")
@@ -113,21 +114,28 @@ def run_property(prop: str, tier: str, repo: str, seed: int, args) -> int:
         elif st == "unknown":
             undecided.append(oid)
         elif st == "refuted":
-            inst = [(o, v) for o, v in by_oid[oid] if v.verdict == "refuted"]
-            kf = replay_mod.match_known(known, oid, inst)
+            plain = [o for _, o in by_oid[oid] if o["verdict"] == "refuted"]
+            kf = replay_mod.match_known_plain(known, oid, plain)
             if kf is not None:
                 known_hits.append({"oid": oid, "finding": kf["id"], "what": kf["what_fails"]})
                 continue
+            if len(violations) >= 12:
+                # enough distinct replays: the remaining refuted obligations are reported without a native search
+                path = replay_mod.write_minimal(prop, oid, plain)
+                violations.append({"oid": oid, "replay": path, "reproduced": False})
+                continue
+            inst = instances_of(oid)
+            if not inst:
+                path = replay_mod.write_minimal(prop, oid, plain)
+                violations.append({"oid": oid, "replay": path, "reproduced": False})
+                continue
             rp = replay_mod.make_replay(eng, prop, oid, inst, repo, seed)
             violations.append({"oid": oid, "replay": rp["path"], "reproduced": rp["reproduced"]})
-    # functions out of reach / missing
-    for r in reports:
-        if r.status == "unsupported":
-            for u in sorted(set(r.unsupported)):
-                undecided.append(f"{r.key}: {u}")
-        for vc in r.vacuous_cases:
-            undecided.append(f"{r.key} / {vc}: no feasible path (vacuous precondition?)")
-    # bounded stand-ins
+    for r in results:
+        for u in r["unsupported"]:
+            undecided.append(f"{r['key']}: {u}")
+        for vc in r["vacuous"]:
+            undecided.append(f"{r['key']} / {vc}: no feasible path (vacuous precondition?)")
     bounded = []
     if not args.no_bounded:
         from .bounded import run_bounded
@@ -141,7 +149,6 @@ def run_property(prop: str, tier: str, repo: str, seed: int, args) -> int:
             if b.get("crash"):
                 print(f"BOUNDED-CRASH {b['name']}: {b['crash']}")
                 exit_code = max(exit_code, 3)
-    # ledger: obligations that discharged on the pinned tree must still exist
     ledger_path = os.path.join(ROOT, "ledger.json")
     ledger = json.load(open(ledger_path)) if os.path.exists(ledger_path) else {}
     if args.write_ledger:
@@ -169,10 +176,10 @@ def run_property(prop: str, tier: str, repo: str, seed: int, args) -> int:
     if undecided and exit_code == 0:
         exit_code = 2
     from .evidence import write_evidence
-    write_evidence(eng, prop, tier, seed, reports, obs, verdicts, status, known_hits, violations, undecided, bounded,
-                   time.time() - t0)
+    write_evidence(eng, prop, tier, seed, results, skipped, status, known_hits, violations, undecided, bounded, time.time() - t0)
     n_ok = sum(1 for s in status.values() if s == "proved")
-    print(f"{prop}: {len(status)} obligations ({len(obs)} path instances), {n_ok} discharged, "
+    n_inst = sum(len(r["obligations"]) for r in results)
+    print(f"{prop}: {len(status)} obligations ({n_inst} path instances), {n_ok} discharged, "
           f"{len(known_hits)} known-finding instances, {len(violations)} violations, {len(undecided)} undecided, "
           f"{time.time() - t0:.1f}s")
     return exit_code
